@@ -1150,11 +1150,13 @@ UttSpec genUtt(Choices &c, bool target) {
   UttSpec u;
   u.gram = genGrammar(c);
   long N;
-  switch (c.weighted({target ? 0 : 2, 2, 5, 5})) {
+  switch (c.weighted({target ? 0 : 2, 2, 5, 5, 1})) {
   case 0: N = 0; break;
   case 1: N = c.range(1, 3000); break;
   case 2: N = c.range(3000, 16000); break;
-  default: N = c.range(16000, 30000); break;
+  case 3: N = c.range(16000, 30000); break;
+  // longer than the 128-frame rings: a full-utterance call then leaves larger buffers behind for later streaming
+  default: N = c.range(40000, 70000); break;
   }
   u.audio = audio::recipe(c, (size_t)N, u.adesc, true, target ? 16 : 8);
   size_t mode = c.weighted({5, 2, 2}); // streaming | buffered (no_search) | full_utt
